@@ -159,6 +159,19 @@ is what the last mutation naming exactly that triple said -/
 def specLookup (ws : List LWrite) (subj ns ek : Bytes) : Option Bytes :=
   ws.foldl (fun cur w => if w.1 = subj ∧ w.2.1 = ns ∧ w.2.2.1 = ek then w.2.2.2 else cur) none
 
+/-- What a mutation with an over-long namespace really addresses: `uint8(len(namespace))` keeps the length modulo 256,
+so the first `len % 256` bytes act as the namespace and the rest is read back as the head of the entry key.
+The identity on namespaces of at most 255 bytes. -/
+def normW (w : LWrite) : LWrite :=
+  (w.1, w.2.1.take (w.2.1.length % 256), w.2.1.drop (w.2.1.length % 256) ++ w.2.2.1, w.2.2.2)
+
+/-- subject keys the 4-byte length field can represent -/
+def Act.KeysOK (a : Act) : Prop := ∀ w ∈ a.lwrites, w.1.length < 4294967296
+
+/-- the namespace precondition, local to one subject key: the mutations returned FOR `k` use namespaces of at most
+255 bytes (what other keys' mutations use does not matter) -/
+def NsOKFor (k : Bytes) (ws : List LWrite) : Prop := ∀ w ∈ ws, w.1 = k → w.2.1.length ≤ 255
+
 /-- namespace as it is laid out inside the composite key: one length byte, then the bytes -/
 def nsEnc (ns : Bytes) : Bytes := UInt8.ofNat (ns.length % 256) :: ns
 
@@ -197,6 +210,10 @@ deriving Repr, Inhabited
 def Batch.firedActs (b : Batch) : List Act := b.fired.map (fun f => Act.timerDel f.1 f.2)
 def Batch.respActs (b : Batch) : List Act := b.resp.flatMap KeyResult.acts
 def Batch.acts (b : Batch) : List Act := b.firedActs ++ b.respActs
+
+/-- keys the 4-byte length field can represent: the event keys and the keys of the results -/
+def Batch.KeysOK (b : Batch) : Prop :=
+  (∀ k ∈ b.events, k.length < 4294967296) ∧ ∀ kr ∈ b.resp, kr.key.length < 4294967296
 
 /-- `keyStateMap`: state is fetched for the first event of each key only -/
 def distinctKeys : List Bytes → List Bytes
